@@ -34,7 +34,9 @@ type H struct{}
 func (H) ID() string { return "C02" }
 
 // Faults implements core.Harness.
-func (H) Faults() core.FaultMenu { return core.FaultMenu{Sequential: true, MaxSteps: 200000} }
+func (H) Faults() core.FaultMenu {
+	return core.FaultMenu{Sequential: true, MapOrder: true, MaxSteps: 200000}
+}
 
 // Decode implements core.Harness.
 func (H) Decode(b []byte) (any, error) {
@@ -57,7 +59,7 @@ func (H) Describe(sc any) string {
 
 // Generate implements core.Harness.
 func (H) Generate(r *simrt.Rand, tier string) any {
-	fam := []string{"ascending", "descending", "zigzag", "random", "delete-heavy", "two-child-deletions"}[r.Intn(6)]
+	fam := []string{"ascending", "descending", "zigzag", "random", "delete-heavy", "two-child-deletions", "duplicate-keys"}[r.Intn(7)]
 	s := &Scenario{Family: fam}
 	max := 255
 	if tier == "thorough" {
@@ -83,6 +85,15 @@ func (H) Generate(r *simrt.Rand, tier string) any {
 		s.Ops = append(s.Ops, Op{"remove", v})
 	}
 	switch fam {
+	case "duplicate-keys":
+		// insertions only; op value = key*1000+seq, compared by key alone: equal
+		// keys are legal in this multiset tree and the sequence number keeps the
+		// shape recoverable from the traversals
+		keys := 1 + r.Intn(6)
+		for i := 0; i < n; i++ {
+			s.Ops = append(s.Ops, Op{"add", (1+r.Intn(keys))*1000 + i%1000})
+		}
+		return s
 	case "ascending":
 		for i := 1; i <= n; i++ {
 			add(i)
@@ -187,8 +198,12 @@ func (H) Execute(scAny any, cfg simrt.Config, st *core.Stats) (*simrt.Outcome, *
 	var h uint64
 	body := func() {
 		calls := 0
+		dupKeys := sc.Family == "duplicate-keys" || (len(sc.Family) > 14 && sc.Family[:14] == "duplicate-keys")
 		tree := avl.New(func(a, b int) int {
 			calls++
+			if dupKeys {
+				a, b = a/1000, b/1000
+			}
 			switch {
 			case a < b:
 				return -1
@@ -234,7 +249,7 @@ func (H) Execute(scAny any, cfg simrt.Config, st *core.Stats) (*simrt.Outcome, *
 			}
 			pos := make(map[int]int, size)
 			for j, x := range in {
-				if j > 0 && in[j-1] >= x {
+				if j > 0 && (in[j-1] >= x && !dupKeys || dupKeys && in[j-1]/1000 > x/1000) {
 					v = &core.Violation{Signature: "inorder-not-sorted", Detail: fmt.Sprintf("op %d %s: in-order %v", i, o, in)}
 					return
 				}
